@@ -55,6 +55,16 @@ for _other in ("a", "b"):
     COLLECT.append(("(/%s)+((/))" % _other, [(("key", _other),), ()]))
     COLLECT.append(("((/))+((/%s))" % _other, [(), (("key", _other),)]))
 COLLECT.append(("((/))+(/[0])", [(), (("idx", 0),)]))
+# a slice and an index (inside / outside / before the slice) in one sum
+for _a, _b in ((1, 3), (0, 2), (-3, -1), (-2, -1)):
+    for _i in (0, 1, 2, -1):
+        COLLECT.append(("(/[%d:%d])+(/[%d])" % (_a, _b, _i),
+                        [(("slice", _a, _b),), (("idx", _i),)]))
+        COLLECT.append(("(/[%d])+(/[%d:%d])" % (_i, _a, _b),
+                        [(("idx", _i),), (("slice", _a, _b),)]))
+        COLLECT.append(("(/a[%d:%d])+(/a[%d])" % (_a, _b, _i),
+                        [(("key", "a"), ("slice", _a, _b)),
+                         (("key", "a"), ("idx", _i))]))
 
 
 def plan(tier):
@@ -183,11 +193,21 @@ def model(doc0, segs):
         ctxs = []
         try:
             for op in segs[1]:
-                got = refedit.matched(doc0, op)
-                if op != () and not got:
+                if op and op[-1][0] == "slice":
+                    got = refquery.ev(op, refquery.root_ctx(doc0))
+                else:
+                    got = refedit.matched(doc0, op)
+                flat = []
+                for c in got:
+                    # a slice operand contributes the elements it selected
+                    if isinstance(c.node, refquery.VList):
+                        flat += list(c.node)
+                    else:
+                        flat.append(c)
+                if op != () and not flat:
                     # (the engine's collectors need every operand to match)
                     return ("nomatch",)
-                ctxs += got
+                ctxs += flat
             if any(op == () for op in segs[1]):
                 return ("root",)
         except refquery.Unspecified as ex:
